@@ -35,6 +35,16 @@ RowColumns == <<"Analysis Notes", "Number of Events", "Acquisition Time (s)">>
 BeadsChannelColumns == <<"Detector Volt.", "Amp. Type", "Beads Model", "Beads Params. Names", "Beads Params. Values">>
 SamplesChannelColumns == <<"Detector Volt.", "Amp. Type", "Mean", "Geom. Mean", "Median", "Mode", "Std", "CV", "Geom. Std",
                            "Geom. CV", "IQR", "RCV">>
+(* ---- the steps of run(), in the documented order (the workflow's docstring numbers them): each later step reads what   *)
+(* an earlier one wrote - the samples are processed against the bead table AFTER its statistics columns (detector       *)
+(* voltage, amplifier type per channel) were added, which is what the "other settings" row faults are decided from      *)
+RunProgram(hist) ==
+  <<"read_table:Instruments", "read_table:Beads", "read_table:Samples", "process_beads_table", "add_beads_stats",
+    "process_samples_table", "add_samples_stats">>
+  \o (IF hist THEN <<"generate_histograms_table">> ELSE <<>>) \o <<"generate_about_table", "write_workbook">>
+Before(prog, a, b) == \E i, j \in 1..Len(prog) : i < j /\ prog[i] = a /\ prog[j] = b
+ASSUME \A h \in BOOLEAN : Before(RunProgram(h), "add_beads_stats", "process_samples_table")
+                          /\ Before(RunProgram(h), "process_samples_table", "add_samples_stats")
 BeadsFigures(id, mefChannels) == <<"density_hist_" \o id, "clustering_" \o id>>      \* + populations_<ch>_<id>, std_crv_<ch>_<id> per channel
 SampleFigure(id) == id
 =============================================================================
